@@ -146,11 +146,9 @@ FIRST_MISSED = {
     # wave 11 (C08 C09 C10 C11 C13 C15 C17) and a tenth pair for C06 / C07
     "C06s": "closed after reading the summary: every fifth herd run starts one herd from a configured head count; the target follows the configured count, not the object's copy",
     "C08u": "missed first: the seaweed series were taken from the class, not from the glue that hands them to the optimiser, and the growth table was exactly as long as the horizon",
-    "C09u": "**not caught.** The truncation is applied to the live inputs while a table is saved, before the first round is solved: every round, the herds and the "
-            "report then agree on the truncated harvest, and the checks that judge harvests against the documented function (C08 / C09) drive the supply "
-            "classes directly, not this path. What would catch it: recording the harvest at the return of `compute_parameters_first_round` and comparing it with "
-            "what the optimiser is given (a recorder change that came too late in the round to re-record the thorough corpus). `HarvestSameEveryRound` (C18) was "
-            "added on the way and a quick-tier run with a harvest of a few thousandths of a billion kcal a month; neither sees a truncation that precedes round 1",
+    "C09u": "missed first: the truncation is applied to the live inputs while the harvest table is saved, before the first round is solved, on a path the "
+            "supply replay did not take; the replay now saves the table the way a run does and the series must be what it was "
+            "(`NotQuantised:saving-the-harvest-table-changes-the-harvest`). `HarvestSameEveryRound` (C18) and a quick-tier run with a tiny harvest were added on the way",
     "C10u": "missed first: the crops' extraction was not among the anchors; it is now checked under the four settings of the fat / protein switches",
     "C10v": "a hand-written percent-to-kcals conversion inside the hand-off: caught by C18 `FillSum`",
     "C13v": "closed after reading the summary: the multipliers at world scale, twice with one dictionary",
